@@ -827,7 +827,7 @@ class Airplane:
             # Sort left segments
             while True:
                 next_segment = None
-                norm_to_beat = 0.0
+                norm_to_beat = -1.0 # A tip on the x-axis (distance zero) is a segment too
                 for segment in self._segments_in_wings[i]:
                     if segment.side == "left":
                         tip = segment.get_tip_loc()
